@@ -561,7 +561,11 @@ func (h *Handler) Handle(req map[string]interface{}) interface{} {
 	defer runtime.GOMAXPROCS(prev)
 	level := num(req, "jitter")
 	seed := int64(num(req, "seed"))
-	ctx, cancel := context.WithTimeout(context.Background(), 45*time.Second)
+	limit := num(req, "deadline_s")
+	if limit <= 0 {
+		limit = 45
+	}
+	ctx, cancel := context.WithTimeout(context.Background(), time.Duration(limit)*time.Second)
 	defer cancel()
 
 	// clients
@@ -635,7 +639,10 @@ func (h *Handler) Handle(req map[string]interface{}) interface{} {
 		return resp
 	}
 
-	// ---- after the last return: the final observable state
+	// ---- after the last return: the final observable state (with a deadline of its own)
+	cancel()
+	ctx, cancel = context.WithTimeout(context.Background(), 60*time.Second)
+	defer cancel()
 	fin := map[string]interface{}{}
 	// wait for this history's jobs to finish (their goroutines read the store)
 	jobs := map[string]interface{}{}
@@ -696,6 +703,10 @@ func (h *Handler) Handle(req map[string]interface{}) interface{} {
 	}
 	fin["schemas"] = sch
 	resp["final"] = fin
+	if ctx.Err() != nil {
+		// the observation itself ran out of time (machine load): not an observation about the server
+		resp["final_deadline"] = true
+	}
 
 	// leave the store small for the next history
 	for _, g := range store.GraphNames {
